@@ -23,6 +23,10 @@ Proof. reflexivity. Qed.
 Lemma result_schema_tie : gen_result_opt_first = true.
 Proof. reflexivity. Qed.
 
+(* _is_optional_type looks through Annotated[X | None, ...] and re-wraps (M_Values.is_opt) *)
+Lemma is_optional_tie : gen_opt_through_ann = true.
+Proof. reflexivity. Qed.
+
 Theorem C02_source_echo : forall ser deser, (forall d, deser (ser d) = Some d) ->
   forall t v v', supported t = true -> has_type t v = true ->
   echo ser deser gen_result_opt_first t v = Accept v' -> v' = v.
